@@ -43,6 +43,11 @@ func c08SignedMember(t *vm.Tape, inner *tar.Header, data []byte, tamper int) str
 			data = data[:n]
 			outer.Size = int64(n)
 		}
+	case 4: // embedded header and signature kept byte for byte; the (unsigned) outer header claims another kind of
+		// entry through its mode bits (a fifo / a socket) while its typeflag still lets the reader hand out the body
+		outer.PAXRecords[records.STFSRecordEmbeddedHeader] = string(embedded)
+		outer.PAXRecords[records.STFSRecordSignature] = vm.String("hdrsig", 0, 1, "A!")
+		outer.Mode = []int64{0o10644, 0o140644}[vm.Choice("outerModeBits", 2)]
 	}
 	t.AddMember(outer, 3, int64(len(data)), data)
 	return string(embedded)
@@ -99,7 +104,7 @@ func (d *c08Dst) Close() error                { d.closed = true; return nil }
 // returns nil for a regular member only after the content signature was checked over all bytes.
 func Harness_C08_fetch_gate() {
 	format := c08SigFormats[vm.Choice("format", 2)]
-	tamper := vm.Choice("tamper", 4)
+	tamper := vm.Choice("tamper", 5)
 	kind := vm.Choice("kind", 3)
 	t := vm.NewTape("drive")
 	data := []byte{vm.Byte("d0", "xy"), vm.Byte("d1", "xy"), vm.Byte("d2", "xy")}
